@@ -630,6 +630,10 @@ def main():
                 first += [('poseidon 0 1 %s' % M.lst([rng.randrange(M.Q) for _ in range(n)]), 'first-use/poseidon-width') for n in range(1, 17)]
                 cases = first + cases
             extra['histories'] = len(hist)
+        if not cases and not replay:
+            # a check that explored nothing must never look like a pass
+            print('INTERNAL ERROR: no cases were generated for %s' % pid)
+            sys.exit(2)
         lines = [c[0] for c in cases]
         flags = '-purity'
         exe = 'harness'
